@@ -319,6 +319,7 @@ def shared_state_fn(env):
         out.append([len(d[name]) if cont else d[name] for d, name, cont in watched_globals
                     if name in d])
         out.append([len(d) for d in mod_dicts])
+        out.append(sys.getrecursionlimit())
         out.append([list(h.values()) if isinstance(h, dict) else (list(h) if isinstance(h, list) else len(h))
                     for h in hidden])
         return out
@@ -901,6 +902,9 @@ class World(Engine):
         if stride:
             tapes = tapes + stride_tapes(prof, len(plan['threads']), stride)
         for tape in tapes:
+            if self.out_of_time():
+                stats.count('derived_schedules_cut_by_deadline')
+                break
             p2 = dict(plan, tape=tape, knobs=dict(plan.get('knobs') or {}, sweep=0, stride=None))
             stats.count('stride_runs' if tape.get('why', '').startswith('stride') else 'sweep_runs')
             vs = self.execute_one(p2, stats)
